@@ -19,6 +19,7 @@ P2 = np.array([[2.0, 0.6], [0.6, 1.0]])
 P3 = np.array([[2.0, 0.6, -0.3], [0.6, 1.5, 0.2], [-0.3, 0.2, 1.0]])
 M2, M3 = np.array([0.5, -1.0]), np.array([0.5, -1.0, 0.3])
 YP, SIG2 = 3.0, 4.0
+YP_B = 0.25
 YT = np.array([-3.0, 3.0])                 # two observations of the Student-t location model
 PBIG = np.linspace(60.0, 140.0, 40)        # diagonal information of the 40-dimensional block
 XC = np.c_[np.ones(6), np.linspace(-1, 1, 6)]
@@ -61,7 +62,7 @@ class Family:
             self.keys, self.init = ["x"], {"x": jnp.array([2.6], jnp.float32)}
         elif name == "gauss3":
             self.keys, self.init = ["x"], {"x": jnp.array([0.2, -0.4, 0.1], jnp.float32)}
-        elif name in ("poisson", "poisson_userchol"):
+        elif name in ("poisson", "poisson_userchol", "poisson_b"):
             self.keys, self.init = ["z"], {"z": jnp.array(0.3, jnp.float32)}
         elif name in ("product", "product_rev"):
             # product_rev: the position keys are listed in non-alphabetical order (the flat layout is the sorted one)
@@ -108,6 +109,9 @@ class Family:
         if n in ("poisson", "poisson_userchol"):
             z = s["z"]
             return YP * z - jnp.exp(z) - z ** 2 / (2 * SIG2)
+        if n == "poisson_b":       # same state layout, another count
+            z = s["z"]
+            return YP_B * z - jnp.exp(z) - z ** 2 / (2 * SIG2)
         if n == "product":
             r = s["x"] - jnp.asarray(M2, jnp.float32)
             z = s["z"]
@@ -180,9 +184,10 @@ class Family:
         if n == "gauss3":
             r = f - M3
             return -0.5 * r @ P3 @ r, -P3 @ r, P3
-        if n in ("poisson", "poisson_userchol"):
+        if n in ("poisson", "poisson_userchol", "poisson_b"):
             z = f[0]
-            return YP * z - np.exp(z) - z ** 2 / (2 * SIG2), np.array([YP - np.exp(z) - z / SIG2]), np.array([[np.exp(z) + 1 / SIG2]])
+            yp = YP_B if n == "poisson_b" else YP
+            return yp * z - np.exp(z) - z ** 2 / (2 * SIG2), np.array([yp - np.exp(z) - z / SIG2]), np.array([[np.exp(z) + 1 / SIG2]])
         if n == "product":
             r, z = f[:2] - M2, f[2]
             lp = -0.5 * r @ P2 @ r + YP * z - np.exp(z) - z ** 2 / (2 * SIG2)
@@ -348,3 +353,42 @@ def jobs(quick=True):
         js.append(dict(kernel="rw", family="coupled", step=0.5 * s, seed=len(js)))
         js.append(dict(kernel="mh", family="gamma_coupled", step=0.5 * s, seed=len(js)))
     return js
+
+
+def rebind_traces(seed=0, kernels=("iwls", "rw")):
+    """One kernel object used eagerly with a model, then given another model of the same state layout (set_model) and
+    used again: the reported acceptance is that of the model the kernel is bound to *now*."""
+    out = []
+    epoch = EpochConfig(EpochType.POSTERIOR, 10, 1, None).to_state(1, 1)
+    for kname in kernels:
+        fams = [Family("poisson"), Family("poisson_b"), Family("poisson")]
+        kern = gs.IWLSKernel(["z"], initial_step_size=0.8) if kname == "iwls" else gs.RWKernel(["z"], initial_step_size=0.8)
+        key = jax.random.PRNGKey(seed)
+        state = dict(fams[0].init)
+        ev = []
+        ks = None
+        for fam in fams:
+            kern.set_model(gs.DictInterface(fam.logp))
+            if ks is None:
+                ks = kern.init_state(key, state)
+            for _ in range(6):
+                key, sub = jax.random.split(key)
+                before = np.asarray(state["z"], np.float64).reshape(1)
+                o = kern._standard_transition(sub, ks, state, epoch)
+                state = o.model_state
+                after = np.asarray(state["z"], np.float64).reshape(1)
+                moved = bool(o.info.position_moved)
+                ev.append({"ev": "moved", "moved": moved, "before": _vs(before), "after": _vs(after), "acc": fstr(np.float32(o.info.acceptance_prob)),
+                           "code": int(o.info.error_code)})
+                if not moved:
+                    continue
+                lpx, gx, Fx = fam.leaves(before)
+                lpp, gp, Fp = fam.leaves(after)
+                rec = {"ev": kname, "x": _vs(before), "xp": _vs(after), "s": fstr(np.float32(ks.step_size)),
+                       "acc": fstr(np.float32(o.info.acceptance_prob)), "lp_x": fstr(lpx), "lp_xp": fstr(lpp), "was_accepted": True}
+                if kname == "iwls":
+                    rec.update({"g_x": _vs(gx), "F_x": _ms(Fx), "g_xp": _vs(gp), "F_xp": _ms(Fp)})
+                ev.append(rec)
+        out.append({"hdr": {"kernel": kname, "family": "rebind", "step": 0.8, "chain": 0, "d": 1, "rtol": "3e-3", "atol": "2e-5",
+                            "rw_replay_matched": False, "regular": True, "rebind": {"seed": seed}}, "ev": ev})
+    return out
